@@ -4,6 +4,7 @@ import (
 	"bytes"
 	"errors"
 	"fmt"
+	"math"
 	"os"
 	"path/filepath"
 	"sync"
@@ -896,6 +897,12 @@ func (m *Manager) recoverFromWAL() error {
 
 	// Get recovery options
 	recoveryOpts := memtable.DefaultRecoveryOptions(m.cfg)
+
+	// The log is not truncated when memtables are flushed, so it can hold
+	// more than MaxMemTables memtables worth of data. That must not make
+	// recovery fail (and the log be moved aside): recovered tables beyond
+	// the active one are queued for flushing below.
+	recoveryOpts.MaxMemTables = math.MaxInt
 
 	// Recover memtables from WAL
 	memTables, maxSeqNum, err := memtable.RecoverFromWAL(m.cfg, recoveryOpts)
